@@ -65,8 +65,8 @@ RULES = [
     (r'^<DateTime<FixedOffset> as str::FromStr>::from_str$', ['C09:tx.parse'], 'C15_datetime_fixed_from_str_total', 'every string; the text/value relation: C09_roundtrip_dt_fixed on its domain'),
     (r'^<DateTime<Tz> as DurationRound>::', ['C17:rd.ztrunc', 'C17:rd.zround', 'C17:rd.zup'], 'C15_dtz_round_total', 'every well-formed value, leap-second fractions and headroom wall clocks included; values: C17_zoned_value (non-leap)'),
     # ---- format
-    (r'^DelayedFormat<I>::write_to$', ['C15:c15.writeto'], 'none: C12_format_spec covers the documented family; C15_strftime_never_panics covers the item iterator; formatting of arbitrary items: correspondence + judge', ''),
-    (r'^<DelayedFormat<I> as Display>::fmt$', ['C12:sf.fmt', 'C12:sf.fmtl', 'C13:fp.fmt'], 'none: C12_format_spec covers the documented family; C15_strftime_never_panics covers the item iterator; formatting of arbitrary items: correspondence + judge', ''),
+    (r'^DelayedFormat<I>::write_to$', ['C15:c15.writeto'], 'C15_delayed_format_items_total', 'every item list, every value; over StrftimeItems: C15_delayed_format_strftime_total'),
+    (r'^<DelayedFormat<I> as Display>::fmt$', ['C12:sf.fmt', 'C12:sf.fmtl', 'C13:fp.fmt'], 'C15_delayed_format_strftime_total', 'every format string, every value; fmt::Error by value; the text: C12_format_spec_family'),
     (r'^<ParseError as fmt::Display>::fmt$|^<OutOfRange as|^<ParseMonthError as|^<ParseWeekdayError as|^<RoundingError as|^<OutOfRangeError as',
      [], 'none: outside C15 stream', 'writes a constant string; no arguments to quantify over'),
     (r'^<Weekday as FromStr>::from_str$', ['C19:wd.parse', 'C09:tx.parse'], 'C15_weekday_month_from_str_total', ''),
